@@ -84,6 +84,12 @@ func (r *Run) send(req *simnet.Request, faults []Fault, defFrag string) *Resp {
 	if req.Frag != "" && req.Frag != "whole" {
 		r.stats.Faults["frag-"+req.Frag]++
 	}
+	if r.Plan.Config.LateEOF {
+		req.LateEOF = true
+		if len(req.Body) > 0 {
+			r.stats.Faults["late-eof"]++
+		}
+	}
 	raw := simnet.Do(r.Env.Handler, req)
 	out := &Resp{Response: raw}
 	if raw.Panic == nil && raw.Status >= 300 && len(raw.Body) > 0 {
